@@ -1,19 +1,31 @@
 // C18 correspondence harness: dune/common/path.cc + stringutility.hh vs. the Lean model, with an
 // independent component-resolver oracle (no std::filesystem, no code shared with path.cc).
 //
-// op lines (strings are one token: "-" = empty string; [A-Za-z0-9/._] literal; any other byte ~hh):
+// op lines (strings are one token: "-" = empty string; [A-Za-z0-9/._] literal; any other byte ~hh, also ~00):
 //   u <p>             processPath / prettyPath(p,false) / prettyPath(p,true) / prettyPath(p) / pathIndicatesDirectory
-//   b <x> <y>         concatPaths(x,y) / relativePath(x,y) / hasPrefix(x,y) / hasSuffix(x,y)
-//   f <fmt> <arg>...  formatString(fmt, args...);  arg = d:<int> | s:<count>:<piece>
+//   b <x> <y>         concatPaths(x,y) / relativePath(x,y) / hasPrefix(x,y.c_str()) / hasSuffix(x,y.c_str())
+//                     (the pattern of hasPrefix/hasSuffix is a C string: y up to its first NUL); the oracle also
+//                     runs hasPrefix/hasSuffix on std::vector<char>, std::deque<char>, std::list<char>, std::string_view
+//   f <fmt> <arg>...  formatString(fmt, args...);  arg = d:<int> | l:<long> | u:<unsigned> | c:<char code> |
+//                     w:<wint_t code> | s:<count>:<piece>;  answer = the text or ERR:Exception (conversion error)
+//   F <width>         formatString("%<width>d", 7) for results too long to print: answer ok | ERR:Exception, the text is
+//                     checked by the oracle only (width-1 blanks and '7')
 //
 // generator modes (--mode): u / b = exhaustive enumeration over the alphabet "/.ab" up to --maxlen
-// (case i is the i-th string resp. pair), ur / br = random longer paths and related pairs,
-// bl = long strings around the formatString buffer size for hasPrefix/hasSuffix, f = format lengths.
+// (case i is the i-th string resp. pair), ur / br = random longer paths and related pairs, ul = long random paths,
+// bl = long strings around the formatString buffer size for hasPrefix/hasSuffix, f = format lengths around
+// --bufsize (the stack buffer size read from the current stringutility.hh), F = huge widths.
 #include <config.h>
 
 #include <algorithm>
+#include <climits>
+#include <clocale>
 #include <cstdio>
+#include <cwchar>
+#include <deque>
+#include <list>
 #include <string>
+#include <string_view>
 #include <vector>
 
 #include <dune/common/exceptions.hh>
@@ -53,7 +65,7 @@ static bool dec(const string& t, string& out) {
     if (t[i] == '~') {
       if (i + 2 >= t.size()) return false;
       int a = hexv(t[i + 1]), b = hexv(t[i + 2]);
-      if (a < 0 || b < 0 || a * 16 + b == 0) return false;
+      if (a < 0 || b < 0) return false;
       out.push_back((char)(a * 16 + b));
       i += 2;
     } else if (safeChar((unsigned char)t[i])) out.push_back(t[i]);
@@ -183,6 +195,15 @@ static Result execU(const string& p) {
   return res;
 }
 
+static string cstrOf(const string& y) { return string(y.c_str()); }  // what a const char* parameter sees
+
+template <class C>
+static void otherContainer(Result& res, const char* what, const C& c, const char* pat, bool expP, bool expS) {
+  const bool hp = Dune::hasPrefix(c, pat), hs = Dune::hasSuffix(c, pat);
+  if (hp != expP) fail(res, string("hasPrefix on ") + what + " = " + (hp ? "true" : "false"));
+  if (hs != expS) fail(res, string("hasSuffix on ") + what + " = " + (hs ? "true" : "false"));
+}
+
 static Result execB(const string& x, const string& y) {
   Result res;
   stat("op_b");
@@ -199,12 +220,22 @@ static Result execB(const string& x, const string& y) {
              (hs ? "true" : "false");
 
   if (c != expectConcat(x, y)) fail(res, "concatPaths = " + enc(c) + ", table says " + enc(expectConcat(x, y)));
-  if (hp != plainPrefix(x, y)) fail(res, string("hasPrefix = ") + (hp ? "true" : "false"));
-  if (hs != plainSuffix(x, y)) fail(res, string("hasSuffix = ") + (hs ? "true" : "false"));
+  const string pat = cstrOf(y);
+  const bool ep = plainPrefix(x, pat), es = plainSuffix(x, pat);
+  if (hp != ep) fail(res, string("hasPrefix = ") + (hp ? "true" : "false"));
+  if (hs != es) fail(res, string("hasSuffix = ") + (hs ? "true" : "false"));
+  // the templates are documented for any character container with begin()/size()/const_iterator
+  otherContainer(res, "std::vector<char>", std::vector<char>(x.begin(), x.end()), y.c_str(), ep, es);
+  otherContainer(res, "std::deque<char>", std::deque<char>(x.begin(), x.end()), y.c_str(), ep, es);
+  otherContainer(res, "std::list<char>", std::list<char>(x.begin(), x.end()), y.c_str(), ep, es);
+  otherContainer(res, "std::string_view", std::string_view(x), y.c_str(), ep, es);
+  if (pat.size() != y.size()) stat("b_pattern_truncated_at_nul");
+  if (x.find('\0') != string::npos) stat("b_container_with_nul");
   const Loc dx = denote(x), dy = denote(y);
   const bool mustThrow = dx.abs != dy.abs || dx.ups > dy.ups;
   if (threw) {
     stat("rel_err");
+    stat(dx.abs != dy.abs ? "rel_err_mixed" : "rel_err_too_many_ups");
     if (!mustThrow) fail(res, "relativePath reports no relative path although one exists");
   } else {
     stat("rel_ok");
@@ -216,6 +247,21 @@ static Result execB(const string& x, const string& y) {
     if (!rel.empty() && rel[0] == '/') fail(res, "relativePath result is absolute: " + enc(rel));
     string nf = normalFormDefect(rel);
     if (!nf.empty()) fail(res, "relativePath result " + enc(rel) + " not sanitized: " + nf);
+    // the exact documented result: drop the longest common list of leading components (a leading ".." counts as a
+    // component), one "../" per remaining base component, then the remaining target components
+    {
+      std::vector<string> B((size_t)dx.ups, ".."), P((size_t)dy.ups, "..");
+      B.insert(B.end(), dx.names.begin(), dx.names.end());
+      P.insert(P.end(), dy.names.begin(), dy.names.end());
+      size_t k = 0;
+      while (k < B.size() && k < P.size() && B[k] == P[k]) ++k;
+      string expect;
+      for (size_t i = k; i < B.size(); ++i) expect += "../";
+      for (size_t i = k; i < P.size(); ++i) expect += P[i] + "/";
+      if (rel != expect) fail(res, "relativePath = " + enc(rel) + ", the shortest relative path is " + enc(expect));
+      if (k > 0) stat("rel_common_components");
+      if (k < B.size() && k < P.size() && (plainPrefix(B[k], P[k]) || plainPrefix(P[k], B[k]))) stat("rel_component_is_prefix_of_other");
+    }
     if (rel.find("../") == 0) stat("rel_goes_up");
     if (rel.empty()) stat("rel_empty");
   }
@@ -227,24 +273,42 @@ static Result execB(const string& x, const string& y) {
 
 // ---- formatString ---------------------------------------------------------------------------
 struct FArg {
-  bool isInt = false;
+  char kind = 'd';  // d int, l long, u unsigned, c char, w wint_t, s const char*
   long long i = 0;
   string s;
 };
+// up to four int / const char* arguments
 template <class... A>
 static string callFmt(const string& f, const std::vector<FArg>& a, size_t k, const A&... done) {
   if (k == a.size()) return Dune::formatString(f, done...);
   if constexpr (sizeof...(A) < 4) {
-    if (a[k].isInt) return callFmt(f, a, k + 1, done..., (int)a[k].i);
-    return callFmt(f, a, k + 1, done..., a[k].s.c_str());
-  } else {
-    throw std::runtime_error("too many format arguments");
+    if (a[k].kind == 'd') return callFmt(f, a, k + 1, done..., (int)a[k].i);
+    if (a[k].kind == 's') return callFmt(f, a, k + 1, done..., a[k].s.c_str());
   }
+  throw std::runtime_error("argument list outside the harness's dispatch table");
 }
-// the printf subset, written out by hand:  %%  %[-][0][width]d  %[-][width]s
-static bool idealFormat(const string& f, const std::vector<FArg>& a, string& out) {
+// up to two arguments of any modelled type
+template <class... A>
+static string callFmt2(const string& f, const std::vector<FArg>& a, size_t k, const A&... done) {
+  if (k == a.size()) return Dune::formatString(f, done...);
+  if constexpr (sizeof...(A) < 2) {
+    switch (a[k].kind) {
+      case 'd': return callFmt2(f, a, k + 1, done..., (int)a[k].i);
+      case 'l': return callFmt2(f, a, k + 1, done..., (long)a[k].i);
+      case 'u': return callFmt2(f, a, k + 1, done..., (unsigned)a[k].i);
+      case 'c': return callFmt2(f, a, k + 1, done..., (char)a[k].i);
+      case 'w': return callFmt2(f, a, k + 1, done..., (wint_t)a[k].i);
+      case 's': return callFmt2(f, a, k + 1, done..., a[k].s.c_str());
+    }
+  }
+  throw std::runtime_error("argument list outside the harness's dispatch table");
+}
+enum IdealKind { TEXT, CONVERROR, OUTSIDE };
+// the printf subset, written out by hand:  %%  %[-][0][width]{d,ld,u,x}  %[-][width]{s,c,lc}
+static IdealKind idealFormat(const string& f, const std::vector<FArg>& a, string& out) {
   out.clear();
   size_t k = 0;
+  bool convError = false;
   for (size_t i = 0; i < f.size(); ++i) {
     if (f[i] != '%') { out.push_back(f[i]); continue; }
     ++i;
@@ -254,50 +318,92 @@ static bool idealFormat(const string& f, const std::vector<FArg>& a, string& out
     if (i < f.size() && f[i] == '0') { zero = true; ++i; }
     size_t w = 0;
     while (i < f.size() && f[i] >= '0' && f[i] <= '9') { w = w * 10 + (size_t)(f[i] - '0'); ++i; }
-    if (i >= f.size() || k >= a.size()) return false;
+    if (i >= f.size() || k >= a.size()) return OUTSIDE;
     string body, sign;
-    if (f[i] == 'd' && a[k].isInt) {
-      long long v = a[k].i;
-      if (v < 0) { sign = "-"; v = -v; }
+    auto decimal = [&](unsigned long long v) {
       if (v == 0) body = "0";
       while (v > 0) { body.insert(body.begin(), (char)('0' + v % 10)); v /= 10; }
-    } else if (f[i] == 's' && !a[k].isInt && !zero) {
+    };
+    const char kind = a[k].kind;
+    if ((f[i] == 'd' && kind == 'd') || (f[i] == 'l' && i + 1 < f.size() && f[i + 1] == 'd' && kind == 'l')) {
+      if (f[i] == 'l') ++i;
+      long long v = a[k].i;
+      if (v < 0) { sign = "-"; decimal(0ull - (unsigned long long)v); } else decimal((unsigned long long)v);
+    } else if (f[i] == 'u' && kind == 'u') {
+      decimal((unsigned long long)a[k].i);
+    } else if (f[i] == 'x' && kind == 'u') {
+      unsigned long long v = (unsigned long long)a[k].i;
+      if (v == 0) body = "0";
+      while (v > 0) { body.insert(body.begin(), "0123456789abcdef"[v & 15]); v >>= 4; }
+    } else if (f[i] == 's' && kind == 's' && !zero) {
       body = a[k].s;
-    } else return false;
+    } else if (f[i] == 'c' && kind == 'c' && !zero && a[k].i >= 1 && a[k].i <= 255) {
+      body = string(1, (char)a[k].i);
+    } else if (f[i] == 'l' && i + 1 < f.size() && f[i + 1] == 'c' && kind == 'w' && !zero && a[k].i >= 1) {
+      ++i;
+      if (a[k].i >= 128) convError = true;  // the classic locale cannot encode it: snprintf returns -1 (EILSEQ)
+      else body = string(1, (char)a[k].i);
+    } else return OUTSIDE;
     ++k;
+    if (left) zero = false;
     size_t len = body.size() + sign.size();
     if (len >= w) out += sign + body;
     else if (left) out += sign + body + string(w - len, ' ');
     else if (zero) out += sign + string(w - len, '0') + body;
     else out += string(w - len, ' ') + sign + body;
   }
-  return k == a.size();
+  if (k != a.size()) return OUTSIDE;
+  return convError ? CONVERROR : TEXT;
 }
+
+static long g_bufsize = 1000;  // --bufsize: the stack buffer size of formatString in the tree under test
 
 static Result execF(const std::vector<string>& w) {
   Result res;
   stat("op_f");
   string fmt;
-  if (!dec(w[1], fmt)) return Result{"bad-op", "FAIL malformed format token"};
+  if (!dec(w[1], fmt) || fmt.find('\0') != string::npos) return Result{"bad-op", "FAIL malformed format token"};
   std::vector<FArg> args;
+  bool onlyDS = true;
   for (size_t i = 2; i < w.size(); ++i) {
     auto parts = split(w[i], ':');
     FArg a;
-    if (parts.size() == 2 && parts[0] == "d") { a.isInt = true; a.i = std::stoll(parts[1]); }
-    else if (parts.size() == 3 && parts[0] == "s") {
+    if (parts.size() == 2 && parts[0].size() == 1 && string("dlucw").find(parts[0][0]) != string::npos) {
+      a.kind = parts[0][0];
+      a.i = std::stoll(parts[1]);
+      if (a.kind == 'd' && (a.i < INT_MIN || a.i > INT_MAX)) return Result{"bad-op", "FAIL int argument out of range"};
+      if ((a.kind == 'u' || a.kind == 'w') && (a.i < 0 || a.i > 0xffffffffll)) return Result{"bad-op", "FAIL unsigned argument out of range"};
+      if (a.kind == 'c' && (a.i < 1 || a.i > 255)) return Result{"bad-op", "FAIL char argument out of range"};
+      if (a.kind != 'd') onlyDS = false;
+    } else if (parts.size() == 3 && parts[0] == "s") {
       string piece;
-      if (!dec(parts[2], piece)) return Result{"bad-op", "FAIL malformed string argument"};
+      if (!dec(parts[2], piece) || piece.find('\0') != string::npos) return Result{"bad-op", "FAIL malformed string argument"};
       long n = std::stol(parts[1]);
+      if (n < 0 || n > 10000000) return Result{"bad-op", "FAIL repeat count"};
+      a.kind = 's';
       for (long j = 0; j < n; ++j) a.s += piece;
     } else return Result{"bad-op", "FAIL malformed argument"};
+    stat(string("f_arg_") + a.kind);
     args.push_back(a);
   }
+  if ((onlyDS && args.size() > 4) || (!onlyDS && args.size() > 2)) return Result{"bad-op", "FAIL too many arguments"};
   string ideal;
-  if (!idealFormat(fmt, args, ideal)) return Result{"bad-op", "FAIL format outside the modelled subset"};
+  const IdealKind kind = idealFormat(fmt, args, ideal);
+  if (kind == OUTSIDE) return Result{"bad-op", "FAIL format outside the modelled subset"};
   string got;
+  bool threw = false;
   try {
-    got = callFmt(fmt, args, 0);
+    got = onlyDS ? callFmt(fmt, args, 0) : callFmt2(fmt, args, 0);
   } catch (Dune::Exception&) {
+    threw = true;
+  }
+  if (kind == CONVERROR) {
+    stat("f_conversion_error");
+    res.impl = threw ? "ERR:Exception" : enc(got);
+    if (!threw) fail(res, "formatString returned " + enc(got) + " although snprintf cannot convert the arguments");
+    return res;
+  }
+  if (threw) {
     res.impl = "ERR:Exception";
     res.oracle = "FAIL formatString threw for ideal length " + std::to_string(ideal.size());
     return res;
@@ -309,8 +415,40 @@ static Result execF(const std::vector<string>& w) {
     fail(res, "formatString result of length " + std::to_string(got.size()) + " differs from the ideal text of length " +
                   std::to_string(ideal.size()) + " at offset " + std::to_string(k));
   }
-  size_t L = ideal.size();
-  stat(L < 999 ? "f_len_lt999" : L == 999 ? "f_len_999" : L == 1000 ? "f_len_1000" : L == 1001 ? "f_len_1001" : "f_len_gt1001");
+  const long L = (long)ideal.size(), N = g_bufsize;
+  stat(L < N - 1 ? "f_len_lt_cap-1" : L == N - 1 ? "f_len_eq_cap-1" : L == N ? "f_len_eq_cap" : L == N + 1 ? "f_len_eq_cap+1" : "f_len_gt_cap+1");
+  return res;
+}
+
+// results too long to print: formatString("%<width>d", 7)
+static Result execBig(const string& wtok) {
+  Result res;
+  stat("op_F");
+  if (wtok.empty() || wtok.size() > 18 || wtok.find_first_not_of("0123456789") != string::npos) return Result{"bad-op", "FAIL malformed width"};
+  const long long w = std::stoll(wtok);
+  if (w < 1) return Result{"bad-op", "FAIL width must be positive"};
+  const string fmt = "%" + wtok + "d";
+  string got;
+  bool threw = false;
+  try {
+    got = Dune::formatString(fmt, 7);
+  } catch (Dune::Exception&) {
+    threw = true;
+  }
+  res.impl = threw ? "ERR:Exception" : "ok";
+  if (w > (long long)INT_MAX) {
+    stat("F_beyond_int_max");
+    if (!threw) fail(res, "formatString returned a text of length " + std::to_string(got.size()) + " for a width that does not fit in int");
+    return res;
+  }
+  stat(w == (long long)INT_MAX ? "F_eq_int_max" : w >= (1ll << 30) ? "F_ge_2^30" : "F_large");
+  if (threw) { fail(res, "formatString threw for the representable result length " + wtok); return res; }
+  bool good = (long long)got.size() == w && got.back() == '7';
+  if (good) {
+    const size_t nb = got.find_first_not_of(' ');
+    good = nb == got.size() - 1;
+  }
+  if (!good) fail(res, "formatString result of length " + std::to_string(got.size()) + " is not " + std::to_string(w - 1) + " blanks and '7'");
   return res;
 }
 
@@ -328,6 +466,7 @@ Result exec(const string& line) {
     return execB(x, y);
   }
   if (w[0] == "f" && w.size() >= 2) return execF(w);
+  if (w[0] == "F" && w.size() == 2) return execBig(w[1]);
   return Result{"bad-op", "FAIL harness does not know op"};
 }
 
@@ -348,7 +487,8 @@ static string unrank(long i) {  // i-th string in length-then-lexicographic orde
 }
 
 static const std::vector<string> COMP = {"", "", ".", ".", "..", "..", "..", "a", "b", "ab", "a", "...", ".a", "a.", "..a",
-                                         "a..", "c d", "x-y", "~", "%s", "a;b", ".. "};
+                                         "a..", "c d", "x-y", "~", "%s", "a;b", ".. ", "\\", "\xc3\xa9", "\xff", "..\xff",
+                                         string("a\0b", 3), string("\0", 1), string("..\0", 3), "lib", "lib64", "a", ".."};
 static string randomPath(Rng& r) {
   if (r.coin(1, 4)) {  // unstructured over the small alphabet, '/' and '.' heavy
     size_t n = (size_t)r.range(9, 28);
@@ -364,26 +504,57 @@ static string randomPath(Rng& r) {
   }
   return s;
 }
+static string longPath(Rng& r) {  // hundreds of components, deep "../" runs, long names
+  const size_t target = (size_t)(r.coin(1, 4) ? r.range(2900, 3100) : r.range(200, 2500));
+  string s = r.coin(1, 3) ? "/" : "";
+  while (s.size() < target) {
+    switch (r.below(8)) {
+      case 0: s += string((size_t)r.range(1, 300), "ab."[r.below(3)]); break;  // one long component (also "....")
+      case 1: for (long k = r.range(1, 40); k > 0; --k) s += "../"; continue;
+      case 2: for (long k = r.range(1, 40); k > 0; --k) s += r.coin() ? "a/" : "bb/"; continue;
+      case 3: s += string((size_t)r.range(1, 50), '/'); continue;
+      case 4: for (long k = r.range(1, 30); k > 0; --k) s += "./"; continue;
+      default: s += r.pick(COMP); break;
+    }
+    s += "/";
+  }
+  return s;
+}
 static string longString(Rng& r, size_t n) {
   string s;
   for (size_t i = 0; i < n; ++i) s.push_back("ab/.ab"[r.below(6)]);
   return s;
 }
 
+// lengths the generator visits one by one before it goes random: every length up to min(2*cap+100, 4200), and the
+// neighbourhoods of cap and 2*cap
+static std::vector<long> sweepLengths(long N) {
+  std::vector<long> v;
+  const long top = std::min<long>(2 * N + 100, 4200);
+  for (long t = 0; t <= top; ++t) v.push_back(t);
+  for (long c : {N, 2 * N})
+    for (long t = c - 8; t <= c + 8; ++t)
+      if (t > top && t >= 0) v.push_back(t);
+  return v;
+}
+
 static string genFormat(Rng& r, long i) {
-  // target length of the result: every length 0..2100 once, then the neighbourhood of the buffer size
-  long T = i <= 2100 ? i : (r.coin(3, 4) ? r.range(994, 1006) : r.range(1990, 2010));
+  const long N = g_bufsize;
+  static const std::vector<long> sweep = sweepLengths(N);
+  // target length of the result
+  long T = i < (long)sweep.size() ? sweep[(size_t)i] : (r.coin(3, 4) ? r.range(std::max<long>(0, N - 6), N + 6) : r.range(std::max<long>(0, 2 * N - 10), 2 * N + 10));
   std::ostringstream os;
   os << "f ";
+  auto W = [](long t) { return t > 0 ? std::to_string(t) : string(); };  // a width of 0 would read as the '0' flag
   auto strArg = [&](long len) {
     std::ostringstream a;
-    static const std::vector<string> P = {"a", "ab", "a/b", "x y", "%d", "-"};
+    static const std::vector<string> P = {"a", "ab", "a/b", "x y", "%d", "-", "\xc3\xa9", "\xff"};
     string piece = r.pick(P);
     if (len % (long)piece.size() != 0) piece = "z";
     a << "s:" << len / (long)piece.size() << ":" << enc(piece);
     return a.str();
   };
-  switch (r.below(7)) {
+  switch (r.below(12)) {
     case 0: os << enc("%s") << " " << strArg(T); break;
     case 1: {
       long v = r.coin() ? r.range(-99999, 99999) : r.range(-9, 9);
@@ -394,9 +565,9 @@ static string genFormat(Rng& r, long i) {
       break;
     }
     case 2: {
-      long v = r.range(-1000, 1000);
-      string flags = r.coin(1, 3) ? "-" : r.coin() ? "0" : "";
-      os << enc("%" + flags + std::to_string(T) + "d") << " d:" << v;
+      long v = r.coin(1, 8) ? (r.coin() ? INT_MIN : INT_MAX) : r.range(-1000, 1000);
+      string flags = r.coin(1, 3) ? "-" : r.coin() ? "0" : r.coin(1, 4) ? "-0" : "";
+      os << enc("%" + flags + W(T) + "d") << " d:" << v;
       break;
     }
     case 3: {
@@ -406,7 +577,7 @@ static string genFormat(Rng& r, long i) {
     }
     case 4: {
       long k = r.range(0, 5);
-      os << enc(string("%") + (r.coin() ? "-" : "") + std::to_string(T) + "s") << " " << strArg(k);
+      os << enc(string("%") + (r.coin() ? "-" : "") + W(T) + "s") << " " << strArg(k);
       break;
     }
     case 5: {  // literal text only, with some %%
@@ -418,10 +589,40 @@ static string genFormat(Rng& r, long i) {
       os << enc(f);
       break;
     }
-    default: {
+    case 6: {
       long k = T / 3;
       os << enc("%s|%5d|%s|%-3d") << " " << strArg(k) << " d:" << r.range(-5, 5000) << " " << strArg(T > 2 * k + 12 ? T - k - 12 : 0)
          << " d:" << r.range(0, 99);
+      break;
+    }
+    case 7: {  // long: values beyond the int range
+      long long v = r.coin(1, 4) ? (r.coin() ? LLONG_MIN : LLONG_MAX) : (long long)r.range(-4000000000000l, 4000000000000l);
+      string num = std::to_string(v);
+      if (r.coin()) os << enc("%" + string(r.coin() ? "0" : "") + W(T) + "ld") << " l:" << v;
+      else os << enc("%ld%s") << " l:" << v << " " << strArg(std::max<long>(0, T - (long)num.size()));
+      break;
+    }
+    case 8: {  // unsigned, decimal and hexadecimal
+      unsigned long v = r.coin(1, 4) ? 4294967295ul : (unsigned long)r.range(0, r.coin() ? 300 : 4294967295l);
+      const char* conv = r.coin() ? "u" : "x";
+      if (r.coin()) os << enc("%" + string(r.coin(1, 3) ? "-" : r.coin() ? "0" : "") + W(T) + conv) << " u:" << v;
+      else os << enc(string("%s%") + conv) << " " << strArg(std::max<long>(0, T - 8)) << " u:" << v;
+      break;
+    }
+    case 9: {  // a single char
+      long c = r.coin(1, 3) ? r.range(128, 255) : r.range(33, 126);
+      if (r.coin()) os << enc("%" + string(r.coin() ? "-" : "") + W(T) + "c") << " c:" << c;
+      else os << enc("%s%c") << " " << strArg(std::max<long>(0, T - 1)) << " c:" << c;
+      break;
+    }
+    case 10: {  // a wide char: codes >= 128 cannot be converted in the classic locale -> snprintf fails -> exception
+      long c = r.coin(1, 3) ? r.pick(std::vector<long>{128, 233, 255, 256, 8364, 0x10ffff, 0xd800}) : r.range(1, 127);
+      if (r.coin()) os << enc("%" + W(T) + "lc") << " w:" << c;
+      else os << enc("%s%lc") << " " << strArg(std::max<long>(0, T - 1)) << " w:" << c;
+      break;
+    }
+    default: {  // conversion error behind a text that already fills the stack buffer
+      os << enc("%s%lc") << " " << strArg(T) << " w:" << r.pick(std::vector<long>{128, 255, 8364});
       break;
     }
   }
@@ -430,6 +631,11 @@ static string genFormat(Rng& r, long i) {
 
 std::string gen(Rng& r, long i, const Args& a) {
   const string mode = a.gets("mode", "ur");
+  g_bufsize = a.get("bufsize", 1000);
+  if (i == 0 && a.get("trfallbacks", -1) >= 0) {
+    stat("translator_fallbacks", a.get("trfallbacks", 0));
+    stat("translator_items", a.get("tritems", 0));
+  }
   const int L = (int)a.get("maxlen", 4);
   const long first = a.get("first", 0);
   if (mode == "u") return "u " + enc(unrank(first + i));
@@ -439,6 +645,16 @@ std::string gen(Rng& r, long i, const Args& a) {
     return "b " + enc(unrank(k / N)) + " " + enc(unrank(k % N));
   }
   if (mode == "ur") return "u " + enc(randomPath(r));
+  if (mode == "ul") return "u " + enc(longPath(r));
+  if (mode == "F") {
+    // widths beyond what int can hold must throw; --big 1 adds the boundary INT_MAX-1, INT_MAX (2 GiB results)
+    static const std::vector<string> W = {"2147483648", "2147483649", "4294967296", "4294967303", "99999999999", "3000000", "70000"};
+    static const std::vector<string> WB = {"2147483647", "2147483646"};
+    const bool big = a.get("big", 0) != 0;
+    const size_t n = W.size() + (big ? WB.size() : 0);
+    const size_t k = (size_t)i % n;
+    return "F " + (k < W.size() ? W[k] : WB[k - W.size()]);
+  }
   if (mode == "br") {
     string x = randomPath(r), y;
     switch (r.below(6)) {
@@ -463,7 +679,8 @@ std::string gen(Rng& r, long i, const Args& a) {
     return "b " + enc(x) + " " + enc(y);
   }
   if (mode == "bl") {
-    static const std::vector<long> LEN = {0, 1, 2, 3, 998, 999, 1000, 1001, 1002, 2000};
+    const long N = g_bufsize;
+    const std::vector<long> LEN = {0, 1, 2, 3, std::max<long>(0, N - 2), std::max<long>(0, N - 1), N, N + 1, N + 2, 2 * N};
     string x = longString(r, (size_t)r.pick(LEN)), y;
     size_t k = (size_t)r.below(x.size() + 1);
     if (r.coin(1, 3)) k = r.coin() ? x.size() - std::min<size_t>(x.size(), r.below(3)) : std::min<size_t>(x.size(), r.below(3));
@@ -478,6 +695,8 @@ std::string gen(Rng& r, long i, const Args& a) {
       default: y = x.substr(0, k); if (!y.empty()) y.back() ^= 3; break;
     }
     for (auto& c : y) if (c == 0) c = 'q';
+    if (r.coin(1, 8) && !y.empty()) y[r.below(y.size())] = '\0';  // the C-string pattern ends here
+    if (r.coin(1, 10) && !x.empty()) x[r.below(x.size())] = '\0';  // NUL inside the container
     return "b " + enc(x) + " " + enc(y);
   }
   if (mode == "f") return genFormat(r, first + i);
